@@ -163,9 +163,26 @@ def r3(ctx):
                 "every payload of self.payloads with depth - 1",
                 text_="updatePayloads descent")
     f = ctx.method("Fiber", "updatePayloadsBelow")
-    src = " ".join(text(s) for s in f.body).replace(" ", "")
-    if "lambdai,c,p:func(p,*args,**kwargs)" in src and \
-            "self.updatePayloads(update_lambda,depth=depth)" in src:
+    okb = False
+    fn_p = f.params[1] if len(f.params) > 1 else None
+    for c in pat.calls(f, attr="updatePayloads"):
+        if text(c.func.value) != f.params[0] or not c.args:
+            continue
+        d = pat.kwarg(c, "depth", 1)
+        lam = c.args[0]
+        if isinstance(lam, ast.Name):
+            lam = pat.single_def(ctx, f, lam)
+        if not (isinstance(lam, ast.Lambda) and len(lam.args.args) == 3 and
+                d is not None and text(d) == "depth"):
+            continue
+        body = lam.body
+        if isinstance(body, ast.Call) and text(body.func) == fn_p and body.args and \
+                text(body.args[0]) == lam.args.args[2].arg and \
+                [text(a) for a in body.args[1:]] == ["*" + (f.vararg or "?")] and \
+                [k.arg for k in body.keywords] == [None] and \
+                text(body.keywords[0].value) == (f.kwarg or "?"):
+            okb = True
+    if okb:
         ctx.ok("C08.R3", f, f.node, "callback applied to each payload at the "
                "requested depth", text_="def updatePayloadsBelow")
     else:
@@ -185,11 +202,24 @@ def r4(ctx):
         ctx.require(loops, "C08.R4: element loop of %s not found" % key)
         pvar = text(loops[0].target.elts[1])
         cvar = text(loops[0].target.elts[0])
+        # the per-partition lists: last two arguments of the zip(...) whose
+        # elements are handed to build_elem
+        LC = LP = None
+        for lp2 in f.own_nodes():
+            if isinstance(lp2, ast.For) and any(
+                    isinstance(c, ast.Call) and text(c.func).endswith(".build_elem")
+                    for c in _walk(lp2.body)):
+                z = lp2.iter
+                if isinstance(z, ast.Call) and text(z.func) == "enumerate" and z.args:
+                    z = z.args[0]
+                if isinstance(z, ast.Call) and text(z.func) == "zip" and len(z.args) >= 2:
+                    LC, LP = text(z.args[-2]), text(z.args[-1])
+        ctx.require(LC and LP, "C08.R4: per-partition lists of %s not found" % key)
         for c in _walk(loops[0].body):
             if isinstance(c, ast.Call) and isinstance(c.func, ast.Attribute) and \
                     c.func.attr == "append":
                 tgt = text(c.func.value)
-                if tgt.startswith("lower_payloads["):
+                if tgt.startswith(LP + "["):
                     n += 1
                     if c.args and text(c.args[0]) == pvar:
                         ctx.ok("C08.R4", f, c, "payload object passed through unchanged")
@@ -197,7 +227,7 @@ def r4(ctx):
                         ctx.bad("C08.R4", f, c, "the partition receives `%s` "
                                 "instead of the element's own payload `%s`"
                                 % (text(c.args[0]) if c.args else "", pvar))
-                elif tgt.startswith("lower_coords["):
+                elif tgt.startswith(LC + "["):
                     if c.args and text(c.args[0]) == cvar:
                         ctx.ok("C08.R4", f, c, "coordinate passed through unchanged")
                     else:
@@ -210,11 +240,20 @@ def r4(ctx):
             ("core/fiber.py:Fiber._splitNonUniform_iter._SplitterNonUniform_iter.build_elem",
              "self.splits[ind]")):
         f = ctx.func(key)
+        cp = f.params[2] if len(f.params) > 2 else "coords"
         rel = [x for x in f.own_nodes() if isinstance(x, ast.Assign)
-               and text(x.targets[0]) == "coords"]
-        want = "[c-%s forcincoords]" % start
-        if len(rel) == 1 and text(rel[0].value).replace(" ", "") == \
-                ("[c-%sforcincoords]" % start.replace(" ", "")):
+               and text(x.targets[0]) == cp]
+        okrel = False
+        if len(rel) == 1 and isinstance(rel[0].value, ast.ListComp) and \
+                len(rel[0].value.generators) == 1:
+            lc_ = rel[0].value
+            g_ = lc_.generators[0]
+            if isinstance(g_.target, ast.Name) and text(g_.iter) == cp and not g_.ifs \
+                    and isinstance(lc_.elt, ast.BinOp) and isinstance(lc_.elt.op, ast.Sub) \
+                    and text(lc_.elt.left) == g_.target.id and \
+                    text(lc_.elt.right).replace(" ", "") == start.replace(" ", ""):
+                okrel = True
+        if okrel:
             ctx.ok("C08.R4", f, rel[0], "relative coordinates = coordinate - "
                    "partition start")
         else:
@@ -248,8 +287,9 @@ def r4(ctx):
     if ok:
         ctx.ok("C08.R4", f, ctors[0], "lower fiber built from the splitter's "
                "lists unchanged, with the split fiber's default and shape")
+        rv = [text(r.value) for r in pat.returns(f) if isinstance(r.value, ast.Name)]
         up = [c for c in _walk(loops[0].body) if isinstance(c, ast.Call)
-              and text(c.func) == "upper.coords.append"]
+              and rv and text(c.func) == rv[0] + ".coords.append"]
         if up and up[0].args and text(up[0].args[0]) == names[0]:
             ctx.ok("C08.R4", f, up[0], "upper coordinate is the partition start")
         else:
